@@ -51,8 +51,16 @@ def cases(ctx):
             present = sorted(set(str(g) for g in pg) | set(str(g) for g in ng))
             extra = [n for n in names if n not in present][: int(rng.integers(0, 2))]
             gn = [str(x) for x in rng.permutation(present + extra)]
+        tied = bool(i % 9 == 4)
+        if tied:  # quantised scores (ratings, rounded scores): the same value occurs in several groups of one class and in both classes
+            allv = rng.integers(0, int(rng.choice([3, 6, 12])), npos + nneg) * 0.5 - 1.0
+            if rng.random() < 0.5:
+                # 8/16-bit quantised scores as they come out of a model (unsigned or narrow signed integers, in arbitrary order)
+                dt_ = [np.uint8, np.int8, np.uint16, np.int16][int(rng.integers(0, 4))]
+                ii_ = np.iinfo(dt_)
+                allv = rng.integers(ii_.min, ii_.max + 1, npos + nneg).astype(dt_) if rng.random() < 0.6 else rng.integers(0, 12, npos + nneg).astype(dt_)
         yield {"pos": allv[:npos], "neg": allv[npos:], "pg": [str(g) for g in pg], "ng": [str(g) for g in ng], "sc": sc, "ec": ec, "group_names": gn,
-               "big": big, "thr_u": rng.uniform(0, 1, 4), "_seed": int(rng.integers(1 << 31))}
+               "big": big, "thr_u": rng.uniform(0, 1, 4), "_seed": int(rng.integers(1 << 31)), "tied": tied}
 
 
 def scenarios(ctx):
@@ -77,6 +85,39 @@ def _traffic(case):
                      bootstrap_config=BootstrapConfig(nb_samples=12, bootstrap_method="quantile", stratified_sampling=strat))
 
 
+def _execute_tied(ctx, case, gs, pos, neg, pg, ng, sc, ec, rs):
+    """Sources with tied values: elements cannot be traced individually, so what is judged are multisets and counts - the rows carrying a
+    label (as a multiset), the partition of the confusion matrix, and for samples (M-bs, tie branch) the existence of every sampled
+    (value, class, group) triple in the source and the per-group sample counts under by_group stratification."""
+    from score_analysis import BootstrapConfig
+    from .. import refmodel as R
+
+    sess = ctx.sess
+    gs._vmon_owner = False
+    sig = (sc, ec, len(set(pg) | set(ng)), "tied")
+    C = lambda ok, what, key, **kw: sess.check("R-gs", bool(ok), what, dict({"pos": pos, "pos_groups": pg, "neg": neg, "neg_groups": ng, "cfg": [sc, ec]}, **kw), sig=sig, key=key)  # noqa: E731
+    sess.observe("R-gs")
+    allv = np.concatenate([pos, neg])
+    ths = np.concatenate([np.unique(allv), np.unique(allv) + 0.25, [-np.inf, np.inf]])
+    for g in gs.groups:
+        sub = gs[g]
+        C(np.array_equal(sub.pos, np.sort(pos[pg == g])) and np.array_equal(sub.neg, np.sort(neg[ng == g])), "gs[g] is not the (multiset of) scores carrying the label", "gs-getitem-rows", group=str(g))
+    gcm = gs.group_cm(ths).matrix
+    for i, g in enumerate(gs.groups):
+        ref = np.array([R.count_cm(pos[pg == g].tolist(), neg[ng == g].tolist(), t, sc, ec) for t in ths.tolist()])
+        C(np.array_equal(gcm[i], ref), "group_cm differs from counting on the rows carrying the label (tied scores)", "gs-group-cm", group=str(g))
+    C(np.array_equal(gcm.sum(axis=0), gs.cm(ths).matrix), "per-group matrices do not sum to the overall matrix (tied scores)", "gs-partition")
+    strata_ok = all((pg == g).sum() > 0 and (ng == g).sum() > 0 for g in gs.groups)
+    for meth in ("replacement", "dynamic", "single_pass"):
+        for strat in (None, "by_label", "by_group"):
+            if strat == "by_group" and not strata_ok and meth != "replacement":
+                continue
+            for _ in range(3):
+                gs.bootstrap_sample(BootstrapConfig(sampling_method=meth, stratified_sampling=strat))  # judged by M-bs (tie branch)
+    sess.sig_counts[("case",) + sig] += 1
+    return bool(len(gs.groups) >= 2)
+
+
 def execute(ctx, case):
     from score_analysis import BootstrapConfig, GroupScores, Scores, groupwise
 
@@ -94,6 +135,8 @@ def execute(ctx, case):
     else:
         gs = GroupScores(pos, neg, pos_groups=pg, neg_groups=ng, score_class=sc, equal_class=ec, group_names=np.asarray(gn))
         sess.check("R-gs", [str(g) for g in gs.groups] == gn, "explicit group_names are not used as given", {"given": gn, "got": [str(g) for g in gs.groups]}, key="gs-group-names")
+    if case.get("tied"):
+        return _execute_tied(ctx, case, gs, pos, neg, pg, ng, sc, ec, rs)
     owner = {float(v): ("p", str(g)) for v, g in zip(pos, pg)}
     owner.update({float(v): ("n", str(g)) for v, g in zip(neg, ng)})
     gs._vmon_owner = owner  # ground truth from the *inputs*, used by M-bs for every sample of gs
@@ -115,8 +158,10 @@ def execute(ctx, case):
 
     def op_swap():
         sw = gs.swap()
-        C(attached(sw, True) and monitors.cfg_of(sw) == (FLIP[sc], FLIP[ec]) and sorted(sw.groups) == sorted(set(pg) | set(ng))
+        C(attached(sw, True) and monitors.cfg_of(sw) == (FLIP[sc], FLIP[ec]) and sorted(sw.groups) == sorted(str(g) for g in gs.groups)
           and len(sw.pos) == len(neg) and len(sw.neg) == len(pos), "swap(): labels detached, flags not flipped or groups changed", "gs-swap")
+        C([str(g) for g in sw.groups] == [str(g) for g in gs.groups] and np.array_equal(sw.group_cm(ths).matrix[..., ::-1, ::-1], gs.group_cm(ths).matrix),
+          "swap(): the groups (rows of every per-group result) come in another order than on the original", "gs-swap-order", groups=[str(g) for g in gs.groups], swapped=[str(g) for g in sw.groups])
 
     def op_from_labels():
         fl = GroupScores.from_labels(np.concatenate([np.ones(len(pos), int), np.zeros(len(neg), int)]), np.concatenate([pos, neg]), np.concatenate([pg, ng]),
@@ -165,6 +210,19 @@ def execute(ctx, case):
             v = base.copy()
             v[3:-3] = np.sort(rs.uniform(allv.min(), allv.max(), len(v) - 6))
             op_group_cm(" (long vectors differing in the interior)", ths=v, sample=rs.integers(0, len(v), 12))
+
+    def op_group_cm_forms():
+        # one threshold, however it is handed over (Python float, numpy scalar, 0-d array, one-element list): the per-group matrices are those of
+        # the vector call at that position, and the group rates follow
+        j_ = int(rs.integers(0, len(ths)))
+        t_ = float(ths[j_])
+        ref_ = gs.group_cm(ths).matrix[:, j_]
+        for form, x_ in (("pyfloat", t_), ("npfloat", np.float64(t_)), ("0d", np.asarray(t_)), ("list1", [t_])):
+            got_ = np.asarray(gs.group_cm(x_).matrix)
+            want_ = ref_[:, None] if form == "list1" else ref_
+            C(got_.shape == want_.shape and np.array_equal(got_, want_), "group_cm at a single threshold differs from the vector call at that position", "gs-group-cm-form", form=form, threshold=t_)
+            C(np.array_equal(np.asarray(gs.group_tpr(x_)), np.asarray(gs.group_cm(x_).tpr()), equal_nan=True) and np.array_equal(np.asarray(gs.group_topr(x_)), np.asarray(gs.group_cm(x_).topr()), equal_nan=True),
+              "group rate at a single threshold differs from the rate of group_cm there", "gs-group-rate-form", form=form, threshold=t_)
 
     def op_group_cm_layout():
         # the same grid of thresholds in several memory layouts (C, Fortran, transposed / strided views): positions are what counts
@@ -228,7 +286,7 @@ def execute(ctx, case):
                     C(len(b.pos) == len(pos) and len(b.neg) == len(neg), "by_label: class sizes not preserved", "gs-bs-label")
         return run
 
-    ops = [op_swap, op_from_labels, op_group_cm, op_groupwise, op_getitem, op_getitem, op_eq] + ([op_group_cm_near] if case.get("_seed", 0) % 3 == 0 else []) + ([op_group_cm_layout] if case.get("_seed", 0) % 3 == 1 else [])
+    ops = [op_swap, op_from_labels, op_group_cm, op_groupwise, op_getitem, op_getitem, op_eq, op_group_cm_forms] + ([op_group_cm_near] if case.get("_seed", 0) % 3 == 0 else []) + ([op_group_cm_layout] if case.get("_seed", 0) % 3 == 1 else [])
     for meth in ("replacement", "single_pass", "dynamic"):
         for strat in (None, "by_label", "by_group"):
             if strat == "by_group" and not strata_ok and meth != "replacement":
